@@ -340,6 +340,11 @@ static int gnutls_verify_sha_pem(jwt_t *jwt, const char *head,
 			alg = GNUTLS_SIGN_EDDSA_ED25519;
 		else if (alg == GNUTLS_PK_EDDSA_ED448) {
 			alg = GNUTLS_SIGN_EDDSA_ED448;
+			/* RFC 8032 5.2.6: S is 57 octets whose last octet is
+			 * always zero. GnuTLS ignores that octet, so any
+			 * value in it would verify; OpenSSL rejects it. */
+			if (sig_len != 114 || sig[113] != 0)
+				VERIFY_ERROR("Failed to verify signature");
 		} else {
 			VERIFY_ERROR("Unknown EdDSA key type"); // LCOV_EXCL_LINE
 		}
